@@ -108,18 +108,26 @@ func main() {
 		fmt.Fprintln(os.Stderr, "vinstr:", err)
 		os.Exit(2)
 	}
-	if *hooks != "" {
-		ents, _ := os.ReadDir(*hooks)
+	// several comma-separated hook directories: a later one overrides an earlier one
+	seenHook := map[string]bool{}
+	for _, hd := range strings.Split(*hooks, ",") {
+		if hd == "" {
+			continue
+		}
+		ents, _ := os.ReadDir(hd)
 		for _, e := range ents {
-			if !strings.HasSuffix(e.Name(), ".go") {
+			if e.IsDir() || !strings.HasSuffix(e.Name(), ".go") {
 				continue
 			}
 			// name: dir__dir__file.go  -> <repo>/dir/dir/file.go
 			rel := strings.ReplaceAll(e.Name(), "__", "/")
 			target := filepath.Join(keyRoot, rel)
-			abs, _ := filepath.Abs(filepath.Join(*hooks, e.Name()))
+			abs, _ := filepath.Abs(filepath.Join(hd, e.Name()))
 			overlay[target] = abs
-			rep.Hooks = append(rep.Hooks, rel)
+			if !seenHook[rel] {
+				rep.Hooks = append(rep.Hooks, rel)
+				seenHook[rel] = true
+			}
 		}
 	}
 	sort.Strings(rep.Files)
@@ -267,6 +275,41 @@ func rewriteFile(path, rel string) ([]byte, bool, error) {
 		}
 		return true
 	})
+	// stores/sqlite: every reference to database/sql's Open goes through the hook's
+	// verifSQL.Open, so that a fault-injecting driver can be put under the store without
+	// depending on any private name of the package.
+	if strings.HasPrefix(rel, "stores/sqlite/") {
+		sqlImported := false
+		for _, im := range f.Imports {
+			if p, _ := strconv.Unquote(im.Path.Value); p == "database/sql" && im.Name == nil {
+				sqlImported = true
+			}
+		}
+		if sqlImported {
+			n, left := 0, 0
+			ast.Inspect(f, func(nd ast.Node) bool {
+				if se, ok := nd.(*ast.SelectorExpr); ok {
+					if id, ok := se.X.(*ast.Ident); ok && id.Name == "sql" && id.Obj == nil {
+						if se.Sel.Name == "Open" {
+							se.X = ast.NewIdent("verifSQL")
+							n++
+						} else {
+							left++
+						}
+					}
+				}
+				return true
+			})
+			if n > 0 {
+				rw.changed = true
+				rep.Rewrites["sql.Open"] += n
+				if left == 0 {
+					f.Decls = append(f.Decls, &ast.GenDecl{Tok: token.VAR, Specs: []ast.Spec{&ast.ValueSpec{
+						Names: []*ast.Ident{ast.NewIdent("_")}, Type: sel("sql", "NullString")}}})
+				}
+			}
+		}
+	}
 	// receives in expression position: `<-c` becomes `<-vrt.RecvChan(c)` (the controlled
 	// receive happens inside RecvChan; the operator then reads the same value, ok from a
 	// ready one-element channel). Receives inside selects that were left alone are skipped.
